@@ -108,6 +108,15 @@ SecpSMT.sq_zero SecpSMT
 SecpSMT.firstnz_step SecpSMT
 SecpSMT.neg_zero_iff SecpSMT
 SecpSMT.chord_on_curve SecpSMT
+SecpSMT.same_x_parity SecpSMT
+SecpSMT.same_xy SecpSMT
+SecpSMT.aff_on_curve SecpSMT
+SecpSMT.issq_of_sq SecpSMT
+SecpSMT.fofint_eq SecpSMT
+SecpSMT.bitsumf_eq SecpSMT
+SecpSMT.bits_total SecpSMT
+SecpSMT.add_neg_cancel SecpSMT
+SecpSMT.ninv_mul SecpSMT
 SecpSMT.sswu_on_curve SecpSMT2
 SecpSMT.iso_valid SecpSMT2
 SecpSMT.iso_hom_chord SecpSMT3
